@@ -448,6 +448,24 @@ class XT:
             raise Unsupported('Tensor.any() on z3-valued elements')
         return any(nz(e) for e in self.a.reshape(-1))
 
+    def m_repeat(self, *sizes):
+        if len(sizes) == 1 and isinstance(sizes[0], (tuple, list)):
+            sizes = tuple(sizes[0])
+        if len(sizes) < self.a.ndim:
+            raise I.PyExc('RuntimeError', 'Number of dimensions of repeat dims can not be smaller than number of dimensions of tensor')
+        return self._new(np.tile(self.a, tuple(int(s) for s in sizes)))
+
+    def m_t(self):
+        if self.a.ndim > 2:
+            raise I.PyExc('RuntimeError', 't() expects a tensor with <= 2 dimensions')
+        return self._alias(self._new(self.a.T))
+
+    def m_matmul(self, o):
+        return t_matmul(self, o)
+
+    def __matmul__(self, o):
+        return t_matmul(self, o)
+
     def m_clone(self):
         return self._new(self.a.copy())
 
@@ -657,6 +675,46 @@ def t_bmm(a, b):
     return a._new(out, b)
 
 
+def _mm2(x, y):
+    n, k = x.shape
+    k2, m = y.shape
+    if k != k2:
+        raise I.PyExc('RuntimeError', f'matmul shape mismatch {x.shape} x {y.shape}')
+    out = np.empty((n, m), dtype=object)
+    for i in range(n):
+        for j in range(m):
+            tot = Fraction(0)
+            for l in range(k):
+                tot = tot + x[i, l] * y[l, j]
+            out[i, j] = tot
+    return out
+
+
+def t_matmul(a, b):
+    """torch.matmul for 1-D / 2-D operands and batched operands with broadcast leading dimensions."""
+    if not (isinstance(a, XT) and isinstance(b, XT)):
+        raise Unsupported('matmul of non-tensors')
+    x, y = a.a, b.a
+    if x.ndim == 0 or y.ndim == 0:
+        raise I.PyExc('RuntimeError', 'both arguments to matmul need to be at least 1D')
+    sx, sy = x.ndim == 1, y.ndim == 1
+    if sx:
+        x = x.reshape(1, -1)
+    if sy:
+        y = y.reshape(-1, 1)
+    lead = np.broadcast_shapes(x.shape[:-2], y.shape[:-2])
+    xb = np.broadcast_to(x, lead + x.shape[-2:])
+    yb = np.broadcast_to(y, lead + y.shape[-2:])
+    out = np.empty(lead + (x.shape[-2], y.shape[-1]), dtype=object)
+    for idx in np.ndindex(*lead):
+        out[idx] = _mm2(xb[idx], yb[idx])
+    if sx:
+        out = out[..., 0, :]
+    if sy:
+        out = out[..., 0] if not sx else out[..., 0]
+    return a._new(_ensure_arr(out), b)
+
+
 def t_zeros_like(x, requires_grad=False, **kw):
     r = XT(_full(x.a.shape, Fraction(0)), dtype=x.dtype)
     if requires_grad:
@@ -773,7 +831,7 @@ def install(engine):
     E = I.ExternFunc
     torch = engine.externs['torch']
     torch.attrs.update({
-        'cat': E('torch.cat', t_cat), 'stack': E('torch.stack', t_stack), 'bmm': E('torch.bmm', t_bmm),
+        'cat': E('torch.cat', t_cat), 'stack': E('torch.stack', t_stack), 'bmm': E('torch.bmm', t_bmm), 'matmul': E('torch.matmul', t_matmul),
         'zeros_like': E('torch.zeros_like', t_zeros_like), 'full_like': E('torch.full_like', t_full_like),
         'zeros': E('torch.zeros', t_zeros), 'tensor': E('torch.tensor', t_tensor),
         'repeat_interleave': E('torch.repeat_interleave', t_repeat_interleave),
